@@ -217,6 +217,21 @@ def positions_core():
     out.append(g)
     return out
 
+def nonprintable_terms(g, rnd):
+    """turn one or two char terms into non-printable bytes (their names are rendered as \\xHH in messages); whitespace bytes are terms
+    only under the options that do not skip them"""
+    g = gg.clone(g)
+    cands = [j for j, t in enumerate(g.terms) if t.kind == 'c']
+    rnd.shuffle(cands)
+    used = {t.text for t in g.terms}
+    for j in cands[:rnd.choice([1, 1, 2])]:
+        pool = [0x0a, 0x09, 0x0d] if rnd.random() < 0.3 else list(range(1, 9)) + list(range(0x0e, 0x20)) + [0x7f] + list(range(0x80, 0x100))
+        b = chr(rnd.choice(pool))
+        if b in used: continue
+        t = g.terms[j]; used.add(b); g.terms[j] = gg.Term('c', b, t.prec, t.assoc, None, t.typed)
+    g.note += '+nonprintable'
+    return g
+
 def newline_term(g, rnd):
     """turn one char term into the newline character (a term only when newlines are not skipped)"""
     g = gg.clone(g)
@@ -302,8 +317,10 @@ def c02(tier):
 def c09(tier):
     ck = Check('C09', tier)
     q = tier == 'quick'
-    cfg = {'modes': [0, 4], 'exh_cap': 300 if q else 600, 'exh_len': 5, 'n_rand': 30, 'n_mut': 80, 'long': (30, 120), 'n_raw': 16}
+    cfg = {'modes': [0, 4, 8, 9], 'exh_cap': 300 if q else 600, 'exh_len': 5, 'n_rand': 30, 'n_mut': 80, 'long': (30, 120), 'n_raw': 16}
     gs = gen_grammars('C09', tier, 160 if q else 2000, 'plain') + gen_grammars('C09', tier, 96 if q else 1000, 'decorated')
+    rnd = random.Random(common.seed() * 9001 + 9)
+    gs = [nonprintable_terms(g, rnd) if (i % 4 == 1 and len(g.terms) <= 12 and not getattr(g, 'lexspec', None)) else g for i, g in enumerate(gs)]
     merge(ck, run_pipeline('C09', tier, gs, cfg))
     ck.cov['rule'] = ('LR(1) grammars without error rules (char, string and typed terms); every input is parsed with a std::ostringstream; the complete stream text must equal '
                       'the single expected message (or nothing), with the offending term decided by the reference; the bounds-monitoring buffer records how far the '
@@ -529,9 +546,9 @@ def c08(tier):
 def c13(tier):
     ck = Check('C13', tier)
     q = tier == 'quick'
-    cfg = {'modes': [0, 20, 21, 22, 23, 24], 'exh_cap': 80 if q else 200, 'exh_len': 4, 'n_rand': 40, 'n_mut': 30, 'long': (30, 300) if q else (100, 1000), 'n_ws': 4, 'n_raw': 2}
+    cfg = {'modes': [0, 20, 21, 22, 23, 24, 25, 26, 27, 28, 29, 30], 'exh_cap': 80 if q else 200, 'exh_len': 4, 'n_rand': 40, 'n_mut': 30, 'long': (30, 300) if q else (100, 1000), 'n_ws': 4, 'n_raw': 2}
     merge(ck, run_pipeline('C13', tier, gen_grammars('C13', tier, 128 if q else 1500, 'context'), cfg))
-    ck.cov['rule'] = ('grammars mixing >= and >>= functors (and some with none); context categories lvalue, const lvalue, rvalue temporary, move-only lvalue; each contextual functor logs whether it '
+    ck.cov['rule'] = ('grammars mixing >= and >>= functors (and some with none); context categories lvalue, const lvalue, rvalue temporary, move-only lvalue, named objects passed with std::move, through the overloads with and without parse_options / stream; each contextual functor logs whether it '
                       'received the caller\'s object (address), its constness and the number of calls the object has seen, and bumps it; after the call the caller\'s counter must equal the number of '
                       'contextual reductions in the reference derivation; context copy/move counters must stay 0; parse and context_parse are compared on grammars that ignore the context; '
                       'distinct_nontrivial = distinct (grammar,input,category) with >= 2 contextual reductions')
@@ -628,6 +645,11 @@ def c06(tier):
             specs.append({'seed': common.seed() * 13 + i, 'grammars': [g.to_json() for g in c], 'flavour': fl, 'modes': [0, 3, 4, 10], 'tier': tier, 'timeout': 200 if q else 600})
     n = 70000 if q else 300000
     deep_inputs = [[b'(' * n + b'a' + b')' * n, b'(' * n + b'a' + b')' * (n - 1), b'(' * n], [b'a' * (2 * n)], [b'a' * (4 * n)], [b'i+' * n + b'(i+i)', b'i+' * n]]
+    # a reduction at every stack depth while the stacks grow: every growth step (reallocation) of the run-time stacks happens in the middle of a reduction
+    from .grammar import simple
+    for spec, mk in (('L->I L | I\nI->a', lambda k: b'a' * k), ('L->I s L | I\nI->a | b I', lambda k: b'as' * k + b'ba')):
+        g = simple(spec); g.note = 'deep:growth-steps'
+        deep = deep + [g]; deep_inputs.append([mk(k) for base in (1024, 2048, 4096) for k in range(base - 3, base + 3)])
     for g, ins in zip(deep, deep_inputs):
         specs.append({'seed': 1, 'grammars': [g.to_json()], 'flavour': 'asan', 'modes': [0, 3, 4], 'tier': tier, 'timeout': 300 if q else 1200, 'explicit_inputs': [[d.hex() for d in ins]]})
     merge(ck, common.pmap(sfc.worker, specs))
@@ -740,7 +762,7 @@ def c15(tier):
     specs = []
     for i in range(3 if q else 12):
         for fl in ('tsan', 'gxx'):
-            specs.append({'seed': common.seed() * 23 + i, 'n_grammars': 6, 'n_inputs': 10 if q else 30, 'threads': [4, 16] if q else [2, 8, 16, 32], 'iters': 400 if q else 3000, 'flavour': fl})
+            specs.append({'seed': common.seed() * 23 + i, 'n_grammars': 6, 'n_inputs': 10 if q else 30, 'threads': [4, 16] if q else [2, 8, 16, 32], 'iters': 400 if q else 3000, 'flavour': fl, 'timeout': 240 if q else 1200})
     merge(ck, common.pmap(thc.worker, specs, jobs=4))
     ck.cov['rule'] = ('several const parser objects (constexpr and run-time constructed; generated lexers with string/regex/typed terms, a custom lexer, error recovery, contextual functors) are shared by '
                       '4..32 threads, each making a random mix of parse / verbose parse into its own stream / parse without stream / write_diag_str calls on accepted, rejected and recovering inputs, with '
@@ -808,7 +830,7 @@ def replay(prop, path):
         if isinstance(case, dict) and case.get('grammar') and prop in pipeline.JUDGES:
             from .grammar import Grammar
             g = Grammar.from_json(case['grammar'])
-            modes = {'C01': [0], 'C02': [0], 'C05': [0], 'C08': [0, 1], 'C09': [0, 4], 'C10': [0, 7, 8, 9], 'C11': [1], 'C13': [0, 20, 21, 22, 23, 24], 'C14': [0], 'C16': [0, 1, 2, 5, 6], 'C18': [0, 1, 3, 4, 7, 8, 9]}[prop]
+            modes = {'C01': [0], 'C02': [0], 'C05': [0], 'C08': [0, 1], 'C09': [0, 4, 8, 9], 'C10': [0, 7, 8, 9], 'C11': [1], 'C13': [0, 20, 21, 22, 23, 24, 25, 26, 27, 28, 29, 30], 'C14': [0], 'C16': [0, 1, 2, 5, 6], 'C18': [0, 1, 3, 4, 7, 8, 9]}[prop]
             inputs = [case['input']] if case.get('input') is not None else ['']
             spec = {'prop': prop, 'grammars': [g.to_json()], 'seed': 1, 'flavour': 'clang', 'cfg': {'modes': modes, 'timeout': 300}, 'explicit_inputs': [inputs]}
             outs = [pipeline.worker(spec)]
